@@ -192,6 +192,13 @@ func runC07(p *core.Prog, r *core.Report) {
 					if x.Op == token.ARROW {
 						r.Fail("C07-R1", "bare receive in "+fnName(f), p.Pos(in.Pos()), "a bare channel receive cannot be released by cancellation")
 					}
+				case *ssa.Call:
+					// a lock, a condition variable or a wait group is a blocking point no context can interrupt: a goroutine
+					// parked there (a pause gate, a quiescence barrier) outlives the cancellation, and Wait() with it
+					switch n := sx.CalleeName(x); n {
+					case "(*sync.Mutex).Lock", "(*sync.RWMutex).Lock", "(*sync.RWMutex).RLock", "(*sync.Cond).Wait", "(*sync.WaitGroup).Wait":
+						r.Fail("C07-R1", "uninterruptible blocking call in "+fnName(f), p.Pos(in.Pos()), short(n)+" in a lane goroutine cannot be released by cancellation: the goroutine stays parked after the context is done and Wait() hangs")
+					}
 				}
 			})
 		}
@@ -297,6 +304,37 @@ func runC07(p *core.Prog, r *core.Report) {
 		}
 		r.Check(ok, "C07-R3", fnName(body)+": wg.Done deferred first", p.FuncPos(body), "defer wg.Done() is the first action (runs on every exit, including panic)", why+": the group's counter would not drop on some exit, Wait would hang")
 	}
+	// the lane's context is the caller's own: PushTask and the goroutines look at the very Context New was given. A
+	// derived context (WithCancel for a Stop method, …) learns of the parent's end through a watcher goroutine when the
+	// parent is not one of the standard types: a PushTask that begins after the caller's cancel is still accepted
+	{
+		var bad []string
+		n := 0
+		for _, ref := range sx.FieldRefs(viewFuncs(p, t.Ctor), t.Ctx) {
+			fa, ok := ref.Instr.(*ssa.FieldAddr)
+			if !ok {
+				continue
+			}
+			for _, a := range sx.Accesses(fa) {
+				if a.Kind != "write" {
+					continue
+				}
+				n++
+				isParam := false
+				for _, prm := range t.Ctor.Params {
+					if sx.Unspill(a.Val) == ssa.Value(prm) || (sx.OrigFunc(ref.Fn) == t.Ctor && len(sx.Origins(a.Val)) == 1 && sx.Origins(a.Val)["param:"+prm.Name()]) {
+						if _, isCall := sx.Unspill(a.Val).(*ssa.Call); !isCall {
+							isParam = true
+						}
+					}
+				}
+				if !isParam {
+					bad = append(bad, "the context field is assigned "+short(sx.ValPath(a.Val))+" at "+p.Pos(a.Instr.Pos()))
+				}
+			}
+		}
+		r.Check(len(bad) == 0 && n > 0, "C07-R2", "the lane uses the caller's context itself", p.FuncPos(t.Ctor), "ctx field = New's context parameter", strings.Join(bad, "; ")+": not the Context the caller cancels — its cancellation reaches the lane later (or, for a replaced context, never)")
+	}
 	{
 		// Add in the constructor
 		var adds []*ssa.Call
@@ -318,9 +356,75 @@ func runC07(p *core.Prog, r *core.Report) {
 			for _, a := range adds {
 				cut.Instrs[a] = true
 			}
+			// `if n > 0 { wg.Add(n * k) }`: the path that skips Add is the one on which the loops `for i := 0; i < n; i++`
+			// that start the goroutines do not run at all. Accepted: every path to a go statement passes Add or the
+			// `n <= 0` edge, and from that edge the go statement is reachable only through a loop test `i < n` with the
+			// same n (false on its first evaluation, so never true)
+			skip := map[sx.Edge]bool{}
+			loopTrue := map[sx.Edge]bool{}
+			sx.Instrs(t.Ctor, func(in ssa.Instruction) {
+				b, ok := in.(*ssa.BinOp)
+				if !ok || b.Referrers() == nil {
+					return
+				}
+				for _, u := range *b.Referrers() {
+					iff, isIf := u.(*ssa.If)
+					if !isIf {
+						continue
+					}
+					// n > 0 / 0 < n guarding an Add: its false edge
+					if k, isC := sx.ConstInt(b.Y); isC && k == 0 && b.Op == token.GTR {
+						tb := iff.Block().Succs[0]
+						for _, a := range adds {
+							if a.Block() == tb {
+								skip[sx.Edge{From: iff.Block(), Idx: 1}] = true
+							}
+						}
+					}
+					// i < n with i a loop counter starting at 0
+					if ph, isPhi := b.X.(*ssa.Phi); isPhi && b.Op == token.LSS {
+						zero := false
+						for _, e := range ph.Edges {
+							if k, isC := sx.ConstInt(e); isC && k == 0 {
+								zero = true
+							}
+						}
+						if zero {
+							loopTrue[sx.Edge{From: iff.Block(), Idx: 0}] = true
+						}
+					}
+				}
+			})
+			sameBound := func(e sx.Edge, guard sx.Edge) bool {
+				gi := guard.From.Instrs[len(guard.From.Instrs)-1].(*ssa.If).Cond.(*ssa.BinOp)
+				li := e.From.Instrs[len(e.From.Instrs)-1].(*ssa.If).Cond.(*ssa.BinOp)
+				return sx.ValPath(sx.Unspill(gi.X)) == sx.ValPath(sx.Unspill(li.Y))
+			}
 			dom := true
 			for _, g := range ctorGos {
-				if !sx.MustPass(t.Ctor, nil, g, cut) {
+				if sx.MustPass(t.Ctor, nil, g, cut) {
+					continue
+				}
+				okSkip := false
+				if len(skip) > 0 {
+					c2 := sx.Cut{Instrs: cut.Instrs, Edges: skip}
+					if sx.MustPass(t.Ctor, nil, g, c2) {
+						okSkip = true
+						for se := range skip {
+							lt := map[sx.Edge]bool{}
+							for le := range loopTrue {
+								if sameBound(le, se) {
+									lt[le] = true
+								}
+							}
+							tb := se.To()
+							if len(tb.Instrs) > 0 && (tb.Instrs[0] == ssa.Instruction(g) || sx.ReachInstr(t.Ctor, tb.Instrs[0], g, sx.Cut{Edges: lt, Instrs: cut.Instrs})) {
+								okSkip = false
+							}
+						}
+					}
+				}
+				if !okSkip {
 					dom = false
 				}
 			}
@@ -690,6 +794,26 @@ func runC08(p *core.Prog, r *core.Report) {
 	t := resolveTaskLane(p)
 	if !t.anchors(r) {
 		return
+	}
+	// an idle worker takes the next task and starts it: nothing it has to wait for lies between — a lock taken around
+	// Start (a pause gate, a "wait until idle" barrier with a pending writer) parks idle workers while tasks wait
+	{
+		var locks []string
+		for _, f := range viewFuncs(p, t.Worker) {
+			for _, g := range sx.WithClosures(f) {
+				sx.Instrs(g, func(in ssa.Instruction) {
+					c, ok := in.(*ssa.Call)
+					if !ok {
+						return
+					}
+					switch n := sx.CalleeName(c); n {
+					case "(*sync.Mutex).Lock", "(*sync.RWMutex).Lock", "(*sync.RWMutex).RLock", "(*sync.Cond).Wait":
+						locks = append(locks, short(n)+" in "+fnName(g)+" at "+p.Pos(in.Pos()))
+					}
+				})
+			}
+		}
+		r.Check(len(locks) == 0, "C08-R2", "the worker waits for nothing but tasks", p.FuncPos(t.Worker), "no lock or condition wait in the worker goroutine", strings.Join(uniq(locks), "; ")+": a worker that is idle can be held there while an accepted task waits (all workers stall behind one writer)")
 	}
 	// ---- R1
 	{
